@@ -125,7 +125,8 @@ fn gen_stage(src: &mut Src, ty: Ty, cap_bytes: usize, allow_diamond: bool) -> (S
             match src.below(n + allow_diamond as usize) {
                 0 => (Stage::XorConst(if ty == Ty::Bits { src.below(2) as u8 } else { src.below(256) as u8 }), ty),
                 1 => (Stage::DelayS(src.below(cap(1) / 4)), ty),
-                2 => (Stage::SkipS(src.below(cap(1) / 4)), ty),
+                // (now and then more than a whole stream's worth)
+                2 => (Stage::SkipS(if src.chance(1, 8) { cap(1) + 1 + src.below(cap(1)) } else { src.below(cap(1) / 4) }), ty),
                 3 => {
                     let (i, d) = *src.pick(&[(1usize, 2usize), (2, 1), (3, 2), (2, 3), (1, 1), (1, 4)]);
                     (Stage::Resample(i, d), ty)
@@ -160,7 +161,7 @@ fn gen_stage(src: &mut Src, ty: Ty, cap_bytes: usize, allow_diamond: bool) -> (S
             0 => (Stage::AddConstF((src.below(41) as f32 - 20.0) * 0.25), ty),
             1 => (Stage::MulConstF((src.below(41) as f32 - 20.0) * 0.125), ty),
             2 => (Stage::DelayS(src.below(cap(4) / 4)), ty),
-            3 => (Stage::SkipS(src.below(cap(4) / 4)), ty),
+            3 => (Stage::SkipS(if src.chance(1, 8) { cap(4) + 1 + src.below(cap(4)) } else { src.below(cap(4) / 4) }), ty),
             4 => (Stage::FirF(small_taps(src, 24), src.range(1, 4)), ty),
             5 => (Stage::IirF(*src.pick(&[0.5f32, 0.1, 1.0])), ty),
             6 => (Stage::Slicer, Ty::Bits),
